@@ -112,6 +112,7 @@ static void t_split_equalities(Tape &t, Model &m) {
 
 static void c15_gen_common(Tape &t, Case &c, bool large) {
   GenOpts go;
+  if (large) t.extend = true;     // thousands of choices per case
   if (large) { go.minm = 200; go.maxm = 400; go.minn = 200; go.maxn = 600; go.bigness = 1; }
   else { go.maxm = 2 + (int)t.below(25); go.maxn = 2 + (int)t.below(30); go.bigness = 1; }
   GenLP g;
